@@ -1,12 +1,206 @@
 //! Engine `stream` (C10): inputs of any length generated on the fly (never materialised), parsed
 //! by the streaming parsers, with the peak live heap measured by the counting allocator.
-//! Case: `stream fmt=<cnf|btor2> n=<items> chunk=<c> read=<bytes per read> big=<size of one large item, 0 = none>`
+//! Case: `stream fmt=<cnf|aag|aig> n=<items> chunk=<c> read=<bytes per read> big=<size of one large item, 0 = none>`
 //! Observation: `items=<n>|END` (the Lean driver predicts it from the parameters).
+//! (`lg=<size>` is accepted for `big=<size>`: a case line that contains ` big=1…` is taken for the
+//! harness-wide flag `big=1` and its observation replaced by `BIG`.)
 //! Oracle: peak live heap ≤ 8·chunk + 4·max_item + 64 KiB, independent of `n`.
+//! `fmt=aag|aig`: an AIGER file whose `n` section entries (all nine sections and the symbol table,
+//! `n/10` resp. `n/9` entries each) are produced on demand and read through the streaming section
+//! API; `big` is the length of the comment.
+//! `--opt scale` (`gen_scale`): `n`, `chunk`, `read` and `big` from `common::scale_sizes`, each
+//! beyond 2^20.
 use crate::common::*;
 use flussab::DeferredReader;
 use flussab_cnf::cnf;
+use flussab_aiger::{ascii, binary};
 use std::io::{self, Read};
+
+/// An AIGER document with `n` section entries, produced item by item.
+#[derive(Clone)]
+struct AigerDoc {
+    bin: bool,
+    /// entries per section: inputs (aag: items; aig: only the header number), latches, outputs, bad,
+    /// constraints, justice properties (one literal each), fairness, and gates, symbols
+    c: [usize; 9],
+    big: usize,
+}
+
+impl AigerDoc {
+    fn new(bin: bool, n: usize, big: usize) -> AigerDoc {
+        let kinds = if bin { 9 } else { 10 };
+        let q = n / kinds;
+        let mut c = [q; 9];
+        if q == 0 {
+            // fewer entries than sections: all of them are outputs
+            c = [0; 9];
+            c[2] = n;
+        } else {
+            // the justice section has two entries per property (size and literal); the rest goes
+            // to the symbol table
+            c[8] = n - (kinds - 1) * q;
+            if bin { c[0] = q + 1; }
+        }
+        AigerDoc { bin, c, big }
+    }
+    fn m(&self) -> usize { self.c[0] + self.c[1] + self.c[7] }
+    /// Bytes of item `i` (0 = header, then the entries in file order, then the comment).
+    fn item(&self, i: usize, out: &mut Vec<u8>) -> bool {
+        use std::io::Write;
+        let [ni, nl, no, nb, nc, nj, nf, na, ns] = self.c;
+        let m = self.m();
+        let lit = |i: usize| (i * 13) % (2 * m + 2);
+        if i == 0 {
+            writeln!(out, "{} {} {} {} {} {} {} {} {} {}", if self.bin { "aig" } else { "aag" }, m, ni, nl, no, na, nb, nc, nj, nf).unwrap();
+            return true;
+        }
+        let mut i = i - 1;
+        if !self.bin {
+            if i < ni { writeln!(out, "{}", 2 * (i + 1)).unwrap(); return true; }
+            i -= ni;
+        }
+        if i < nl {
+            if self.bin { writeln!(out, "{}", lit(i)).unwrap(); } else { writeln!(out, "{} {}", 2 * (ni + i + 1), lit(i)).unwrap(); }
+            return true;
+        }
+        i -= nl;
+        for count in [no, nb, nc] {
+            if i < count { writeln!(out, "{}", lit(i)).unwrap(); return true; }
+            i -= count;
+        }
+        if i < nj { out.extend_from_slice(b"1\n"); return true; }
+        i -= nj;
+        for count in [nj, nf] {
+            if i < count { writeln!(out, "{}", lit(i)).unwrap(); return true; }
+            i -= count;
+        }
+        if i < na {
+            if self.bin { out.extend_from_slice(&[2, 2]); } else { writeln!(out, "{} {} {}", 2 * (ni + nl + i + 1), lit(i), lit(i + 1)).unwrap(); }
+            return true;
+        }
+        i -= na;
+        if i < ns { writeln!(out, "o{} n{}", i % no.max(1), i).unwrap(); return true; }
+        i -= ns;
+        if i == 0 && self.big > 0 {
+            out.extend_from_slice(b"c\n");
+            for k in 0..self.big { out.push(if k % 100 == 99 { b'\n' } else { b'x' }); }
+            out.push(b'\n');
+            return true;
+        }
+        false
+    }
+}
+
+/// The AIGER document as a byte source: one item per refill of `cur`, `read` bytes per call.
+struct AigerStream {
+    doc: AigerDoc,
+    i: usize,
+    cur: Vec<u8>,
+    off: usize,
+    read: usize,
+    pub max_item: usize,
+    pub total: usize,
+}
+
+impl Read for AigerStream {
+    fn read(&mut self, buf: &mut [u8]) -> io::Result<usize> {
+        if self.off >= self.cur.len() {
+            self.cur.clear();
+            self.off = 0;
+            if !self.doc.item(self.i, &mut self.cur) {
+                return Ok(0);
+            }
+            self.i += 1;
+            self.max_item = self.max_item.max(self.cur.len());
+        }
+        let k = buf.len().min(self.read).min(self.cur.len() - self.off);
+        buf[..k].copy_from_slice(&self.cur[self.off..self.off + k]);
+        self.off += k;
+        self.total += k;
+        Ok(k)
+    }
+}
+
+/// Drive the streaming section API over the whole file, counting the entries handed out.
+fn count_aiger(bin: bool, reader: DeferredReader) -> Result<usize, String> {
+    let e = |e: flussab_aiger::ParseError| crate::eng_aiger::err_obs(&e);
+    let lr = flussab::text::LineReader::new(reader);
+    let mut items = 0usize;
+    macro_rules! mid {
+        ($s:ident) => {{
+            let mut s = $s.outputs().map_err(e)?;
+            while s.next_output().map_err(e)?.is_some() { items += 1; }
+            let mut s = s.bad_state_properties().map_err(e)?;
+            while s.next_bad_state_property().map_err(e)?.is_some() { items += 1; }
+            let mut s = s.invariant_constraints().map_err(e)?;
+            while s.next_invariant_constraint().map_err(e)?.is_some() { items += 1; }
+            let mut s = s.justice_properties().map_err(e)?;
+            while s.next_justice_property_size().map_err(e)?.is_some() { items += 1; }
+            let mut s = s.justice_property_local_fairness_constraints().map_err(e)?;
+            while s.next_justice_property_local_fairness_constraint().map_err(e)?.is_some() { items += 1; }
+            let mut s = s.fairness_constraints().map_err(e)?;
+            while s.next_fairness_constraint().map_err(e)?.is_some() { items += 1; }
+            let mut s = s.and_gates().map_err(e)?;
+            while s.next_and_gate().map_err(e)?.is_some() { items += 1; }
+            let mut s = s.symbols().map_err(e)?;
+            while s.next_symbol().map_err(e)?.is_some() { items += 1; }
+            s.comment().map_err(e)?;
+        }};
+    }
+    if bin {
+        let p = binary::Parser::<u32>::new(lr, binary::Config::default()).map_err(e)?;
+        let mut s = p.latches().map_err(e)?;
+        while s.next_latch().map_err(e)?.is_some() { items += 1; }
+        mid!(s);
+    } else {
+        let p = ascii::Parser::<u32>::new(lr, ascii::Config::default()).map_err(e)?;
+        let mut s = p.inputs().map_err(e)?;
+        while s.next_input().map_err(e)?.is_some() { items += 1; }
+        let mut s = s.latches().map_err(e)?;
+        while s.next_latch().map_err(e)?.is_some() { items += 1; }
+        mid!(s);
+    }
+    Ok(items)
+}
+
+fn run_aiger(bin: bool, n: usize, chunk: usize, read: usize, big: usize) -> (String, Vec<String>) {
+    let mut fails = vec![];
+    let doc = AigerDoc::new(bin, n, big);
+    let stats = std::rc::Rc::new(std::cell::RefCell::new((0usize, 0usize)));
+    struct Probe { inner: AigerStream, stats: std::rc::Rc<std::cell::RefCell<(usize, usize)>> }
+    impl Read for Probe {
+        fn read(&mut self, buf: &mut [u8]) -> io::Result<usize> {
+            let r = self.inner.read(buf);
+            *self.stats.borrow_mut() = (self.inner.max_item, self.inner.total);
+            r
+        }
+    }
+    let src = AigerStream { doc, i: 0, cur: vec![], off: 0, read, max_item: 0, total: 0 };
+    let base = heap_mark();
+    let res = catch(|| {
+        let mut reader = DeferredReader::from_read(Probe { inner: src, stats: stats.clone() });
+        reader.set_chunk_size(chunk);
+        count_aiger(bin, reader)
+    });
+    let (peak, largest) = heap_peak_since(base);
+    let (max_item, total) = *stats.borrow();
+    let obs = match res {
+        None => "E:panic".to_string(),
+        Some(Err(e)) => e,
+        Some(Ok(items)) => format!("items={}|END", items),
+    };
+    let bound = 8 * chunk + 4 * max_item + (64 << 10);
+    if peak > bound {
+        fails.push(format!(
+            "C10:peak live heap {} bytes (largest request {}) exceeds 8*chunk + 4*max_item + 64KiB = {} after streaming {} bytes of AIGER",
+            peak, largest, bound, total
+        ));
+    }
+    if obs != format!("items={}|END", n) {
+        fails.push(format!("C10:AIGER stream of {} entries parsed as {}", n, obs));
+    }
+    (obs, fails)
+}
 
 /// Produces `n` clauses `"<a> -<b> <c> 0\n"` on demand; clause `big_at` has `big` literals.
 struct ClauseStream {
@@ -63,7 +257,13 @@ pub fn run_case(line: &str) -> (String, Vec<String>) {
     let n = f.num("n");
     let chunk = f.num("chunk");
     let read = f.num("read").max(1);
-    let big = f.num("big");
+    // `lg=` is `big=` under a name that the harness-wide flag `big=1` cannot be confused with
+    let big = match f.opt("lg") { Some(x) => x.parse().unwrap(), None => f.num("big") };
+    match f.opt("fmt") {
+        Some("aag") => return run_aiger(false, n, chunk, read, big),
+        Some("aig") => return run_aiger(true, n, chunk, read, big),
+        _ => {}
+    }
     let mut fails = vec![];
     let src = ClauseStream { n, i: 0, cur: vec![], off: 0, read, big, max_item: 0, total: 0 };
     // the source is moved into the reader; keep its statistics via a shared cell
@@ -115,7 +315,31 @@ pub fn run_case(line: &str) -> (String, Vec<String>) {
     (obs, fails)
 }
 
+/// `--opt scale`: every parameter from the scale sizes.  `n` up to 2^21 + 64 items (the parsers
+/// run at several million items per second; nothing is materialised), chunk and read sizes from one
+/// byte to 2 MiB, one large item (a clause of `big` literals, a comment of `big` bytes) up to 2 MiB.
+pub fn gen_scale(rng: &mut Rng, thorough: bool) -> String {
+    let sizes = scale_sizes(10, 21);
+    let fmt = *rng.pick(&["cnf", "cnf", "aag", "aig"]);
+    let small: &[usize] = &[1, 2, 7, 64, 4096, 16384];
+    let pick = |rng: &mut Rng, with_small: bool| -> usize {
+        if with_small && rng.chance(1, 3) { *rng.pick(small) } else { *rng.pick(&sizes) }
+    };
+    let chunk = pick(rng, true);
+    let read = pick(rng, true);
+    let mut n = pick(rng, false);
+    // every byte a read call (and a refill) with chunk or read size 1..7: fewer items in the quick tier
+    if (chunk < 64 || read < 64) && !thorough { n = n.min(1 << 18); }
+    let big = if rng.chance(1, 2) { pick(rng, false) } else { 0 };
+    format!("stream fmt={} n={} chunk={} read={} lg={}", fmt, n, chunk, read, big)
+}
+
 pub fn gen_case(rng: &mut Rng, thorough: bool) -> String {
+    // `vh gen stream --opt scale`: main.rs does not pass the option down to this engine
+    let args: Vec<String> = std::env::args().collect();
+    if args.windows(2).any(|w| w[0] == "--opt" && w[1].split('+').any(|o| o == "scale")) {
+        return gen_scale(rng, thorough);
+    }
     let n = if thorough {
         *rng.pick(&[200_000usize, 1_000_000, 3_000_000])
     } else {
